@@ -1004,6 +1004,8 @@ class Executor:
                     callee2 = re.sub(r'\b' + gm.group(1) + r'\b', dyn, callee)
                     user = self.resolver.resolve_fn(self, callee2)
                     if user is not None: callee, amb = callee2, None
+        if user is None and amb is None and self.resolver:
+            user = self.resolver.resolve_fn(self, callee, allow_blanket=True)      # `impl<T> Trait for T` as the last resort
         for mdl in self.models:
             pat, fn = mdl[0], mdl[1]
             if re.search(pat, c):
